@@ -85,6 +85,23 @@ FAIL_CORPUS = [
         {"id": 2, "kind": "exec", "ins": [3], "outs": [5], "k": 1},
         {"id": 3, "kind": "tf", "ins": [5], "outs": [6], "fn": "add", "k": 1},
         {"id": 4, "kind": "gather", "ins": [6, 4], "outs": [7], "depth": 1}]},
+    # the body of a loop (inside a scatter) fails in iteration 2 / 4, after successful iterations whose outputs were already
+    # collected by the LoopOutputStep: the loop must still be left and the executor must raise
+    *[{"nports": 7, "sources": [{"port": 0, "value": [2, 7]}], "closed": [], "nodes": [
+        {"id": 0, "kind": "scatter", "ins": [0], "outs": [1, 2]},
+        {"id": 1, "kind": "tf", "ins": [1], "outs": [3], "fn": "add", "k": 9},
+        {"id": 2, "kind": "loop", "ins": [1, 3], "outs": [4], "k": 2, "fail": {"iter": it}},
+        {"id": 3, "kind": "gather", "ins": [4, 2], "outs": [5], "depth": 1},
+        {"id": 4, "kind": "tf", "ins": [5], "outs": [6], "fn": "sum", "k": 0}]} for it in (2, 4)],
+    # two job pipelines on one deployment, every job asks for ALL cores: A runs first and fails while B's job is queued for
+    # resources; their outputs are joined, so the executor only sees the failure after B ran: the failed job must release
+    # its allocation (executor raises, A FAILED, B COMPLETED, everything terminated)
+    {"nports": 7, "sources": [{"port": 0, "value": 1}, {"port": 1, "value": 2}], "closed": [], "nodes": [
+        {"id": 0, "kind": "exec", "ins": [0], "outs": [2], "k": 1, "allcores": True, "delay": 0.15, "fail": {"job_tag": "0"}},
+        {"id": 1, "kind": "tf", "ins": [1], "outs": [3], "fn": "add", "k": 1},
+        {"id": 2, "kind": "tf", "ins": [3], "outs": [4], "fn": "add", "k": 1},
+        {"id": 3, "kind": "exec", "ins": [4], "outs": [5], "k": 1, "allcores": True},
+        {"id": 4, "kind": "tf", "ins": [2, 5], "outs": [6], "fn": "lin", "k": 0}]},
 ]
 
 
@@ -108,7 +125,8 @@ class C04(Property):
             "incl. unknown-size and depth-2 gathers, dot / cartesian combinators, conditional steps, schedule/transfer/execute job "
             "pipelines) run on the real StreamFlowExecutor under the default asyncio order and 2 (quick) / 6 (thorough) PRNG task "
             "interleavings each; half of the workflows additionally with one injected failure (a transformer raising on one tag, or a "
-            "scatter fed a non-list so that the exception escapes run() into the executor). Oracle per run: executor "
+            "scatter fed a non-list so that the exception escapes run() into the executor, a failing job, a loop body failing in a later "
+            "iteration; witness workflows incl. two resource-contended job pipelines run first). Oracle per run: executor "
             "return/raise, hang watchdog, every step terminated at the moment run() exits, one termination token per port, no pending "
             "task. Compared with the Lean model: executor outcome and (failure-free) the final status of every step. Non-trivial = "
             "workflow with >= 3 nodes.")
